@@ -183,7 +183,7 @@ CLAIMED = {
     ),
     "C10": (
         "7/C10",
-        "Lifecycle.tla, UpdateMerge.tla",
+        "Lifecycle.tla, UpdateMergeDefs.tla, UpdateMerge.tla, Trace_UpdateMerge.tla",
         "TLC explores every history up to the length bound of set_params / clone / fit / update / predict / "
         "transform / transform_scores calls on two detector slots and fit / evaluate calls on their scorer "
         "objects over four datasets (different n and p, overlapping and disjoint index), with the scorer "
@@ -197,7 +197,8 @@ CLAIMED = {
         "term alone; get_params() and all input frames are compared before and after every call.  UpdateMerge.tla: "
         "every history fit(B1), update(B2), update(B3) over ALL non-empty label sets (appended, overlapping, re-sent, "
         "interleaved, gappy) against the label-merged table, replayed x 5 index kinds into a user-defined detector "
-        "that records what _fit receives and into PELT / tuned MovingWindow against a fresh fit.",
+        "that records what _fit receives and into PELT / tuned MovingWindow against a fresh fit; random histories over "
+        "30 labels recorded from the same detector are validated by TLC (Trace_UpdateMerge).",
         "Histories longer than the bound are sampled by TLC simulation; a step that raises ends the replay "
         "of that history; StatThresholdAnomaliser's scorer is excluded from the aliasing steps because it "
         "fits a clone (documented); sktime's clone/reset are exercised, not specified.",
